@@ -397,6 +397,8 @@ func runCall(ctx context.Context, st state.State, g *gate, a int, c Call, holder
 			conds = append(conds, state.WithFinalizerEmpty())
 		case "destroyed":
 			conds = append(conds, state.WithEventTypes(state.Destroyed))
+		case "tearingDown":
+			conds = append(conds, state.WithPhases(resource.PhaseTearingDown), state.WithEventTypes(state.Created, state.Updated))
 		}
 
 		out, err = st.WatchFor(ctx, ptr, conds...)
